@@ -50,6 +50,7 @@ class References:
       if items[i] is item:
         items.pop(i)
         item._delete_reference(self, "sets")
+        self._drop_unreferenced_placeholder(item)
         break
     return None
 
